@@ -481,7 +481,13 @@ func (g *Gen) AddRemarks(d, t *GConf) {
 				continue
 			}
 			g.remarkN++
-			rem := fmt.Sprintf("remark r%d %s", g.remarkN, []string{"servers", "added by ticket 4711", "temporary"}[g.Rng.Intn(3)])
+			k := g.Rng.Intn(3)
+			rem := fmt.Sprintf("remark r%d %s", g.remarkN, []string{"servers", "added by ticket 4711", "temporary"}[k])
+			if g.remarkN%2 == 1 {
+				// A remark that reads like a commented-out rule or starts
+				// with a protocol name; free text all the same.
+				rem = fmt.Sprintf("remark %s r%d", []string{"tcp any host 10.0.1.11 eq www was", "ospf hellos from core", "icmp any any echo until"}[k], g.remarkN)
+			}
 			side := g.Rng.Intn(8) // 0: device only, 1: target only, else both
 			ins := func(lines []string) []string {
 				for i, l := range lines {
